@@ -26,18 +26,29 @@ const AFTER: [&str; 9] = [
     "disconnect none none",
 ];
 
-pub(super) const IDLE_WAYS: [&str; 4] = ["broker-disconnect", "broker-disconnect-rc", "eof", "ping-timeout"];
+pub(super) const IDLE_WAYS: [&str; 5] =
+    ["broker-disconnect", "broker-disconnect-rc", "eof", "ping-timeout", "ping-timeout-busy"];
 
 /// The handle dies while nothing is queued; then every request is called on it, then `drop`,
 /// a resumed reconnect and a drain.
 pub(super) fn idle_dead(rng: super::Rng, how: &str) -> Drv {
     let mut cfg = CfgSpec::basic(128, 256);
-    if how == "ping-timeout" {
+    if how.starts_with("ping-timeout") {
         cfg.ka = 2;
     }
     let mut d = Drv::new(&cfg, rng);
     d.split_rx = false;
     d.connect(&ConnSpec::plain());
+    if how == "ping-timeout-busy" {
+        // Not idle: a QoS 1 and a QoS 2 publish stay unacknowledged.
+        d.x(&PubLine::simple(1, "b", b"1").text());
+        d.go();
+        d.x(&PubLine::simple(2, "b", b"2").text());
+        d.go();
+        while !d.broker.owed().is_empty() {
+            d.broker.forget(0);
+        }
+    }
     d.x("poll");
     match how {
         "broker-disconnect" => {
@@ -69,6 +80,7 @@ pub(super) fn idle_dead(rng: super::Rng, how: &str) -> Drv {
         "subscribe - 74/0/0/0/0",
         "unsubscribe - 74",
         "disconnect none none",
+        "poll",
     ] {
         d.x(line);
         d.go();
@@ -178,8 +190,48 @@ pub fn fault(out: &mut Out, count: u64) {
     let count = count as usize;
     let n_timeouts = 6.min(count);
     let n_idle = IDLE_WAYS.len().min(count - n_timeouts);
-    let picks = stride(all.len(), count - n_timeouts - n_idle);
+    // Broker DISCONNECT: reason absent / success / failures, with and without a reason string.
+    let mut disconnects: Vec<(Option<u8>, bool)> = vec![(None, false)];
+    for rc in [0x00u8, 0x81, 0x8b, 0x8e, 0x98, 0x9d] {
+        disconnects.push((Some(rc), false));
+        disconnects.push((Some(rc), true));
+    }
+    let n_disc = disconnects.len().min(count - n_timeouts - n_idle);
+    let picks = stride(all.len(), count - n_timeouts - n_idle - n_disc);
     let mut idx = 0u64;
+    for (rc, with_props) in &disconnects[..n_disc] {
+        let mut d = setup(out.rng(4000 + idx), 128, 256);
+        let bytes = match (rc, with_props) {
+            (None, _) => wire::disconnect(None),
+            (Some(rc), false) => wire::disconnect(Some(*rc)),
+            (Some(rc), true) => {
+                let props = wire::enc_props(&[crate::parse::PropSpec::Str(0x1f, "bye".into())]);
+                let mut body = vec![*rc, props.len() as u8];
+                body.extend(props);
+                wire::pkt(0xe0, &body)
+            }
+        };
+        if idx % 2 == 0 {
+            d.x(&PubLine::simple(1, "d", b"1").text());
+            d.go();
+        }
+        d.x("poll");
+        d.send_raw("disconnect", &bytes);
+        d.go();
+        for line in ["publish 0 0 74 70 -", "publish 1 0 74 70 -", "subscribe - 74/0/0/0/0", "poll"] {
+            d.x(line);
+            d.go();
+        }
+        d.x("cancel");
+        d.finish_benign();
+        let tags = format!(
+            "scenario=broker-disconnect rc={} props={}",
+            rc.map(|v| format!("{v:02x}")).unwrap_or("absent".into()),
+            *with_props as u8
+        );
+        out.emit(idx, "", &tags, &d);
+        idx += 1;
+    }
     for how in &IDLE_WAYS[..n_idle] {
         let d = idle_dead(out.rng(3000 + idx), how);
         out.emit(idx, "", &format!("scenario=idle-dead-handle fault={how}"), &d);
@@ -307,7 +359,7 @@ fn endings() -> Vec<Ending> {
     for (op, k, n) in [(0, 1u8, 252u8), (0, 5, 251), (0, 9, 255), (2, 2, 253), (2, 7, 254), (3, 1, 252)] {
         v.push(Ending::PartialWriteFault(op, k, n));
     }
-    for rc in [0x80u8, 0x85, 0x87, 0x8a, 0x95, 0x9f] {
+    for rc in [0x80u8, 0x85, 0x87, 0x89, 0x8a, 0x95, 0x9f] {
         v.push(Ending::Rejected(rc));
     }
     for g in 0..GARBLED.len() {
@@ -335,7 +387,16 @@ pub fn reconnect(out: &mut Out, count: u64) {
             grid.push((l, *load, e));
         }
     }
-    for (idx, p) in stride(grid.len(), count as usize).into_iter().enumerate() {
+    // Scripted histories first (a sixth of the budget), then the grid.
+    let scripts = scripted();
+    let n_scripted = scripts.len().min(count as usize / 6);
+    for (idx, i) in stride(scripts.len(), n_scripted).into_iter().enumerate() {
+        let (tags, d) = run_script(out.rng(8000 + i as u64), &scripts[i]);
+        out.emit(idx as u64, "", &tags, &d);
+    }
+    let count = count as usize - n_scripted;
+    for (idx, p) in stride(grid.len(), count).into_iter().enumerate() {
+        let idx = idx + n_scripted;
         let (_, load, e) = grid[p];
         let ending = ends[e];
         let mut cfg = CfgSpec::basic(64, if load == 99 { 96 } else { 400 });
@@ -482,4 +543,174 @@ pub fn reconnect(out: &mut Out, count: u64) {
             &d,
         );
     }
+}
+
+// -------------------------------------------------------------------------------------------
+// Scripted reconnect histories.
+
+#[derive(Debug, Clone)]
+enum Script {
+    /// Receive Maximum r, window filled, connection lost, FRESH session (Receive Maximum again
+    /// or not), then r publishes must be accepted and acknowledged.
+    FreshFullWindow { r: u16, loss: &'static str, rm_again: bool },
+    /// In-flight QoS 1/2, connection lost, CONNACK refused with this reason, then a retry
+    /// against the reactive broker.
+    RefusedThenRetry { rc: u8, loss: &'static str },
+    /// Inbound QoS 2 id n PUBRECed, `drop`, a CONNACK the client rejects (Receive Maximum 0,
+    /// session present 0), retry, then the broker uses id n for a NEW publish.
+    RejectedThenIdReuse { n: u16, inflight: bool },
+    /// Eight QoS 2 exchanges in the PUBREL phase across a resume, then a ninth.
+    EightInRelease { rm8: bool },
+}
+
+fn scripted() -> Vec<Script> {
+    let mut v = Vec::new();
+    for r in [1u16, 2, 3] {
+        for loss in ["eof", "error", "drop"] {
+            for rm_again in [false, true] {
+                v.push(Script::FreshFullWindow { r, loss, rm_again });
+            }
+        }
+    }
+    for rc in [0x80u8, 0x87, 0x89, 0x9f] {
+        for loss in ["eof", "drop"] {
+            v.push(Script::RefusedThenRetry { rc, loss });
+        }
+    }
+    for n in [1u16, 7] {
+        for inflight in [false, true] {
+            v.push(Script::RejectedThenIdReuse { n, inflight });
+        }
+    }
+    v.push(Script::EightInRelease { rm8: true });
+    v.push(Script::EightInRelease { rm8: false });
+    v
+}
+
+fn lose(d: &mut Drv, loss: &str) {
+    match loss {
+        "eof" => {
+            d.x("poll");
+            d.x("d 251");
+        }
+        "error" => {
+            d.x("poll");
+            d.x("d 252");
+        }
+        _ => d.x("drop"),
+    }
+}
+
+fn settle(d: &mut Drv) {
+    for _ in 0..6 {
+        if !d.live() {
+            return;
+        }
+        if !d.suspended() {
+            d.x("poll");
+        }
+        d.go();
+        if d.suspended() && d.unread() == 0 {
+            return;
+        }
+    }
+}
+
+fn run_script(rng: super::Rng, script: &Script) -> (String, Drv) {
+    let mut cfg = CfgSpec::basic(128, 512);
+    cfg.exp = 3600;
+    let mut d = Drv::new(&cfg, rng);
+    d.split_rx = false;
+    let rm = |r: u16| vec![crate::parse::PropSpec::U16(0x21, r)];
+    let forget_all = |d: &mut Drv| {
+        while !d.broker.owed().is_empty() {
+            d.broker.forget(0);
+        }
+    };
+    let tags = match script {
+        Script::FreshFullWindow { r, loss, rm_again } => {
+            d.connect(&ConnSpec::with(rm(*r)));
+            for i in 0..*r + 1 {
+                // The last one does not fit the window.
+                d.x(&PubLine::simple(1 + (i % 2) as u8, "w", &[0x30 + i as u8]).text());
+                d.go();
+            }
+            forget_all(&mut d);
+            lose(&mut d, loss);
+            d.comment("healthy-connect");
+            let props = if *rm_again { rm(*r) } else { vec![] };
+            d.connect(&ConnSpec { sp: Sp::Fixed(false), rc: 0, props });
+            for i in 0..*r {
+                d.x(&PubLine::simple(1 + (i % 2) as u8, "n", &[0x61 + i as u8]).text());
+                d.go();
+            }
+            format!("script=fresh-full-window rm={r} loss={loss} rm_again={}", *rm_again as u8)
+        }
+        Script::RefusedThenRetry { rc, loss } => {
+            d.connect(&ConnSpec::plain());
+            d.x(&PubLine::simple(1, "r", b"1").text());
+            d.go();
+            d.x(&PubLine::simple(2, "r", b"2").text());
+            d.go();
+            forget_all(&mut d);
+            lose(&mut d, loss);
+            d.connect(&ConnSpec { sp: Sp::Fixed(false), rc: *rc, props: vec![] });
+            // The retry: session present follows the clean-start flag the client actually sent
+            // and the session the broker still holds.
+            d.comment("healthy-connect");
+            d.connect(&ConnSpec::plain());
+            format!("script=refused-then-retry rc={rc:02x} loss={loss}")
+        }
+        Script::RejectedThenIdReuse { n, inflight } => {
+            d.connect(&ConnSpec::plain());
+            if *inflight {
+                d.x(&PubLine::simple(1, "i", b"1").text());
+                d.go();
+                forget_all(&mut d);
+            }
+            let first = wire::publish(b"in/a", Some(*n), 2, false, false, &[], b"first");
+            d.broker.adopt_in2(*n, first.clone());
+            d.send_raw("publish2", &first);
+            settle(&mut d); // message delivered
+            settle(&mut d); // PUBREC written
+            forget_all(&mut d); // no PUBREL
+            d.x("drop");
+            // Success, session present 0, Receive Maximum 0: the client rejects this CONNACK.
+            d.connect(&ConnSpec { sp: Sp::Fixed(false), rc: 0, props: rm(0) });
+            // The previous CONNECT created a fresh (empty) session on the broker; it is resumed
+            // if the client asks for it.
+            d.comment("healthy-connect");
+            d.connect(&ConnSpec { sp: Sp::IfAsked, rc: 0, props: vec![] });
+            let second = wire::publish(b"in/b", Some(*n), 2, false, false, &[], b"second!");
+            d.broker.adopt_in2(*n, second.clone());
+            d.send_raw("publish2", &second);
+            settle(&mut d);
+            format!("script=rejected-then-id-reuse id={n} inflight={}", *inflight as u8)
+        }
+        Script::EightInRelease { rm8 } => {
+            d.connect(&ConnSpec::plain());
+            for i in 0..8u8 {
+                d.x(&PubLine::simple(2, "e", &[0x30 + i]).text());
+                d.go();
+            }
+            d.deliver_all(); // eight PUBRECs
+            settle(&mut d); // eight PUBRELs; the PUBCOMPs are withheld
+            settle(&mut d);
+            forget_all(&mut d);
+            d.x("drop");
+            d.comment("healthy-connect");
+            let props = if *rm8 { rm(8) } else { vec![] };
+            d.connect(&ConnSpec { sp: Sp::Fixed(true), rc: 0, props });
+            d.go();
+            d.x(&PubLine::simple(2, "e", b"ninth").text());
+            d.go();
+            if let Some(i) = d.broker.owed().iter().rposition(|o| o.kind == "pubrec") {
+                d.deliver(i);
+            }
+            settle(&mut d);
+            format!("script=eight-in-release rm8={}", *rm8 as u8)
+        }
+    };
+    d.finish_benign();
+    (tags, d)
 }
